@@ -11,16 +11,16 @@ import (
 
 // Clause is one contract clause.
 type Clause struct {
-	Kind  string // requires, ensures, modifies, invariant, unroll, cut, decreases, assert
-	Text  string
-	Expr  ast.Expr
-	Props []string
-	Loop  int    // loop ordinal (invariant/unroll/decreases)
-	N     int    // unroll count
-	Block string // cut: block comment, e.g. "if.done"
-	Ord   int    // cut: ordinal of such block
-	Line  int
-	Name  string // optional label
+	Kind   string // requires, ensures, modifies, invariant, unroll, cut, decreases, assert
+	Text   string
+	Expr   ast.Expr
+	Props  []string
+	Loop   int    // loop ordinal (invariant/unroll/decreases)
+	N      int    // unroll count
+	Block  string // cut: block comment, e.g. "if.done"
+	Ord    int    // cut: ordinal of such block
+	Line   int
+	Name   string     // optional label
 	Lhs    ast.Expr   // ghostset: target gf_x(obj)
 	Params string     // ghostdef: parameter type
 	Frames []ast.Expr // cut: slice ranges that bound what the section wrote
@@ -65,25 +65,25 @@ type LockInv struct {
 	Invs        []*Clause
 	Assumed     []*Clause // assumed at Lock, never asserted (recorded as assumptions)
 	Followers   map[string][]string
-	Tokens      []string  // ghost token fields shared under this lock (value 2 = held by the current thread, stable)
+	Tokens      []string // ghost token fields shared under this lock (value 2 = held by the current thread, stable)
 	Stable      []*Clause
 	Props       []string
 }
 
 // Spec is the parsed contract file.
 type Spec struct {
-	Funcs   map[string]*FuncSpec
-	Order   []string
-	Pures   map[string]*PureFunc
-	Locks   []*LockInv
-	Fields  map[string]string // "Type.field" -> class (immutable, atomic, config, racy, monotone)
+	Funcs       map[string]*FuncSpec
+	Order       []string
+	Pures       map[string]*PureFunc
+	Locks       []*LockInv
+	Fields      map[string]string // "Type.field" -> class (immutable, atomic, config, racy, monotone)
 	TokenTables map[string]string // "Type.field" (a map field) -> token ghost field
 	TokenSlots  map[string]string // "Type.field" -> ghost key field (optional)
-	Axioms  []*Clause // assumed facts about package-level state (listed as assumptions)
-	Observes map[string]string // "Type.field" -> ghost flag set when the field is read as true
-	Lemmas  []*FuncSpec
-	File    string
-	Trusted []string
+	Axioms      []*Clause         // assumed facts about package-level state (listed as assumptions)
+	Observes    map[string]string // "Type.field" -> ghost flag set when the field is read as true
+	Lemmas      []*FuncSpec
+	File        string
+	Trusted     []string
 }
 
 var clauseKw = map[string]bool{
